@@ -276,5 +276,19 @@ if __name__ == '__main__':
             print(m['id'], '%s:%d' % (m['file'], m['line'] + 1), '|', m['old'].strip()[:90], '=>', m['new'].strip()[:90])
     elif cmd == 'sampled':
         print(len(sampled()))
+    elif cmd == 'rekill':
+        # rekill <env suffix> <mutant id> <check>... : run further checks against one mutant
+        suffix, mid = sys.argv[2], sys.argv[3]
+        m = [x for x in json.load(open(os.path.join(OUT, 'list.json'))) if x['id'] == mid][0]
+        krepo, kv = '/tmp/krepo' + suffix, '/tmp/kv' + suffix
+        env = dict(os.environ, PVMON_REPO=krepo, PVMON_SKIP_MIRI='1', CARGO_NET_OFFLINE='true')
+        sh('git checkout -q -- .', cwd=krepo)
+        assert apply(krepo, m)
+        for c in sys.argv[4:]:
+            code, out = sh('./check %s quick 2>&1 | grep -E "verdict=|monitor=|INCONCLUSIVE" | head -3 | cut -c1-300' % c, cwd=kv, timeout=2400, env=env)
+            print(mid, c, out.strip())
+            with open(os.path.join(OUT, 'rekill.jsonl'), 'a') as f:
+                f.write(json.dumps({'id': mid, 'check': c, 'out': out.strip()[:600]}) + '\n')
+        sh('git checkout -q -- .', cwd=krepo)
     elif cmd == 'kill':
         kill(sys.argv[2], int(sys.argv[3]), int(sys.argv[4]), sys.argv[5] if len(sys.argv) > 5 else 'quick')
